@@ -1115,31 +1115,29 @@ def make_check_expr(
 
                     # If this metahint is ignorable...
                     if hint_child_sane is HINT_SANE_IGNORABLE:
-                        # Expression yielding the value of the current pith,
-                        # defined as either...
-                        hint_curr_expr = (
-                            hint_tree.hint_curr.pith_expr
-                            # If this metahint is annotated by only one beartype
-                            # validator, the most efficient expression yielding
-                            # the value of the current pith is simply the full
-                            # Python expression *WITHOUT* assigning that value
-                            # to a reusable local variable in an assignment
-                            # expression. *NO* assignment expression is needed
-                            # in this case.
-                            #
-                            # Why? Because beartype validators are *NEVER*
-                            # recursed into. Each beartype validator is
-                            # guaranteed to be the leaf of a type-checking
-                            # subtree, guaranteeing this pith to be evaluated
-                            # only once.
-                            if len(hints_child) == 1 else
-                            # Else, this metahint is annotated by two or more
-                            # beartype validators. In this case, the most
-                            # efficient expression yielding the value of the
-                            # current pith is the assignment expression
-                            # assigning this value to a reusable local variable.
-                            hint_tree.pith_curr_assign_expr
-                        )
+                        # Expression yielding the value of the current pith.
+                        hint_curr_expr = hint_tree.hint_curr.pith_expr
+
+                        # If this expression is *NOT* a simple Python identifier
+                        # (e.g., due to this hint being nested in a container
+                        # hint), localize the value of this expression to the
+                        # local variable uniquely assigned this value *BEFORE*
+                        # testing this value against these validators. Why?
+                        # Because validators embed this expression in the names
+                        # of local variables (e.g., "IsAttr") and may evaluate
+                        # this expression multiple times (e.g., "&", "|").
+                        # Embedding a non-identifier there generates
+                        # syntactically invalid code.
+                        if not hint_curr_expr.isidentifier():
+                            hint_tree.func_curr_code += (
+                                CODE_PEP593_VALIDATOR_METAHINT_format(
+                                    indent_curr=hint_tree.indent_curr,
+                                    hint_child_placeholder=(
+                                        f'({hint_tree.pith_curr_assign_expr}) is '
+                                        f'{hint_tree.hint_curr.pith_var_name}'
+                                    ),
+                                ))
+                            hint_curr_expr = hint_tree.hint_curr.pith_var_name
                     # Else, this metahint is unignorable. In this case...
                     else:
                         # Python expression yielding the value of the current
